@@ -18,7 +18,8 @@ for i in range(1, 19):
     ties = [n for n in names if re.search(r"(^|\.)(tie_|gen_|.*_tie$|.*_loop$|.*_rel$|.*_run$|model_.*_arith|model_get_choice)", n.split(".")[-1])]
     spec = [os.path.basename(f) for f in glob.glob(os.path.join(ROOT, "lean/SockModel/Spec/*.lean"))]
     has = [s for s in spec if s.startswith(p)] or (["C04.lean (shared)"] if p in ("C05", "C08") and "C04.lean" in spec else []) \
-        or (["C07.lean / C01.lean"] if p == "C16" and "C16.lean" in spec else [])
+        or (["C07.lean / C01.lean"] if p == "C16" and "C16.lean" in spec else []) \
+        or (["Uri.lean (shared)"] if p in ("C11", "C12") and "Uri.lean" in spec else [])
     shm = [n.split(".")[-1] for n in names if "spec_holds_on_model" in n]
     res = rows.get(p, [])
     caught = sum(1 for r in res if r.startswith("caught"))
